@@ -65,6 +65,15 @@ Theorem C08b_enum_rows_per_zone_wrap_refuted :
 Proof. exact enum_rows_per_zone_wrap_refuted. Qed.
 Print Assumptions C08b_enum_rows_per_zone_wrap_refuted.
 
+(** ... and the index CAN be built for every flush whose first zone is the longest and
+    has fewer than 2^16 rows (what the zone planner produces), so the hypotheses above are met. *)
+Theorem C08b_enum_build_ok : forall variants z0 vals0 rest,
+  (N.of_nat (length vals0) < 2 ^ Snel.Gen.Params.zidx_rpz_bits)%N ->
+  (forall zid vals, In (zid, vals) rest -> (length vals <= length vals0)%nat) ->
+  EnumBitmap.build_all variants ((z0, vals0) :: rest) <> None.
+Proof. exact enum_build_ok. Qed.
+Print Assumptions C08b_enum_build_ok.
+
 (** The strongest true statement: outside the known classes, for columns that hold only
     declared variants (STORE validation, C06), every operator and literal is sound. *)
 Theorem C08b_enum_outside_known : forall variants zones ix zid vals op lit all,
